@@ -1,8 +1,8 @@
 (* Model/Der.v — pycoin/satoshi/der.py, function by function.  No proofs here.
    Python `int` = Z, `bytes` = list byte, exceptions = outcome.  Quirks kept:
-   * encode_integer writes the content length with `bytes([len(s)])` (ONE raw byte, not encode_length):
-     128..255 content bytes produce a length byte that read_length takes for a long form, 256 and more
-     raise ValueError;
+   * encode_length does `bytes([0x80 | llen])`: a length of 256^127 bytes or more (128+ length octets,
+     beyond what the DER long form can carry) yields a wrong first octet (llen = 128..255, the bit-or
+     drops or garbles the count) or ValueError (llen >= 256);
    * read_length refuses the empty string with UnexpectedDER, but does `int(hexlify(b""), 16)`
      (ValueError) for the long form with zero length bytes (0x80);
    * remove_sequence slices without checking that the announced length fits;
@@ -33,15 +33,6 @@ Definition byte_of_len (n : N) : outcome byte :=
 (* `ord(s[:1])` of a string that is known to be non-empty here *)
 Definition head_n (s : bytes) : N := match s with [] => 0 | b :: _ => b2n b end.
 
-Definition encode_integer (r : Z) : outcome bytes :=
-  if (r <? 0)%Z then Raise E_ASSERT
-  else
-    let s := hexbytes (Z.to_N r) in
-    if head_n s <=? 127 then
-      do l <- byte_of_len (N.of_nat (length s)); Ret (x02 :: l :: s)
-    else
-      do l <- byte_of_len (N.of_nat (length s) + 1); Ret (x02 :: l :: x00 :: s).
-
 Definition encode_length (len : Z) : outcome bytes :=
   if (len <? 0)%Z then Raise E_ASSERT
   else if (len <? 128)%Z then Ret [n2b (Z.to_N len)]
@@ -49,6 +40,15 @@ Definition encode_length (len : Z) : outcome bytes :=
     let b := hexbytes (Z.to_N len) in
     let llen := N.of_nat (length b) in
     do l <- byte_of_len (N.lor 128 llen); Ret (l :: b).
+
+Definition encode_integer (r : Z) : outcome bytes :=
+  if (r <? 0)%Z then Raise E_ASSERT
+  else
+    let s := hexbytes (Z.to_N r) in
+    if head_n s <=? 127 then
+      do l <- encode_length (Z.of_nat (length s)); Ret (x02 :: l ++ s)
+    else
+      do l <- encode_length (Z.of_nat (length s) + 1); Ret (x02 :: l ++ x00 :: s).
 
 (* encode_sequence: the pieces are passed as a list *)
 Definition encode_sequence (pieces : list bytes) : outcome bytes :=
